@@ -283,8 +283,9 @@ class PrecipitateModel (PrecipitateBase):
         if self.numberOfElements == 1:
             self.pData.xEqAlpha[self.pData.n], self.pData.xEqBeta[self.pData.n] = self._createLookupBinary(self.pData.temperature[self.pData.n])
         else:
-            self.PSDXalpha = [None for p in range(len(self.phases))]
-            self.PSDXbeta = [None for p in range(len(self.phases))]
+            #Zero tables (rather than None) so they can be used if the first equilibrium calculations fail
+            self.PSDXalpha = [np.zeros((self.PBM[p].bins + 1, self.numberOfElements)) for p in range(len(self.phases))]
+            self.PSDXbeta = [np.zeros((self.PBM[p].bins + 1, self.numberOfElements)) for p in range(len(self.phases))]
 
             #Set first index of eq composition
             for p in range(len(self.phases)):
